@@ -29,6 +29,13 @@ class ToolError(Exception):
     """the machinery itself failed (exit code 2); never a verdict about the code under test"""
 
 
+class EnoughViolations(Exception):
+    """raised to stop a check early once several violations are on record"""
+
+
+MAX_VIOLATIONS = 5
+
+
 class Check:
     """collects what a check run covered and what it found; writes the evidence file"""
 
@@ -85,6 +92,8 @@ class Check:
         with open(path, "w") as f:
             json.dump({"property": self.prop, "what": what, "replay": replay}, f, indent=1)
         self.violations.append((what, path))
+        if len(self.violations) >= MAX_VIOLATIONS:
+            raise EnoughViolations()
 
     # ---- finish ---------------------------------------------------------------------------------
     def finish(self):
